@@ -2,7 +2,7 @@
 # confirm_seed.sh <dir with mutN.diff demoN.py metaN.json> <N> <seed-id>   → copies confirmed seed into /verif/seeded/<seed-id>/
 src="$1"; n="$2"; id="$3"
 wt=$(mktemp -d /tmp/confirm.XXXXXX); rmdir "$wt"
-git -C /repo worktree add --detach "$wt" HEAD >/dev/null 2>&1 || { echo "worktree failed"; exit 2; }
+git -C /repo worktree add --detach "$wt" ${CONFIRM_BASE:-HEAD} >/dev/null 2>&1 || { echo "worktree failed"; exit 2; }
 run_demo() { (cd "$wt" && PBR_VERSION=0.0.0 PYTHONPATH="$wt" timeout 600 /venv/bin/python "$src/demo$n.py" >/dev/null 2>&1; echo $?); }
 clean_rc=$(run_demo)
 (cd "$wt" && git apply "$src/mut$n.diff") || { echo "patch does not apply"; git -C /repo worktree remove --force "$wt"; exit 2; }
